@@ -71,7 +71,7 @@ def explore(ctx, res, replay=None):
         n = (400 if quick else 8000)
         for k in range(n):
             o = gen_prog.Opts(canonical=(rng.random() < 0.3), user_macros=0.25 if k % 3 == 0 else 0.0,
-                              split_text=0.5 if pid == 'C08' else 0.2, max_defs=4, p_call=0.8, multi_file=0.4)
+                              split_text=0.5 if pid == 'C08' else 0.2, share_lines=0.4 if k % 4 == 1 else 0.0, max_defs=4, p_call=0.8, multi_file=0.4)
             srcs.append(gen_prog.ProgGen(rng, o).program())
     comp = compile_sources(ctx, [(f, m) for f, m, _ in srcs])
     ccases = [('c%d' % i, 'compile ' + vlib.files_fields(m, f)) for i, (f, m, _) in enumerate(srcs)]
